@@ -131,7 +131,9 @@ class Morphy:
         # of speech are known, also of those without detachment rules
         handled = self._all_lemmas if self._initialized else DETACHMENT_RULES
         if pos is None:
-            pos_list = list(handled)
+            # in a fixed order (the lemma inventory is keyed by a set)
+            pos_list = list(DETACHMENT_RULES)
+            pos_list += sorted(p for p in handled if p not in DETACHMENT_RULES)
         elif pos in handled:
             pos_list = [pos]
         else:
